@@ -259,6 +259,7 @@ package keeper
 //@ pure nodeKeyed(k bytes, n node_Node) bool = k == keyof(Node, n.Creator)
 
 //@ func (Keeper) GetAllNodesByStatusAndReputationAndRole(ctx, role, status, reputation, size) (list)
+//@   nopanic [C02.filter.nopanic]
 //@   requires forall k bytes :: rawhas(Node, k) ==> k == keyof(Node, rawget(Node, k).Creator)
 //@   requires forall c string :: has(Pledge, c) ==> i64(Pledge[c].TotalStorage - Pledge[c].UsedStorage) == Pledge[c].TotalStorage - Pledge[c].UsedStorage
 //@   modifies nothing
@@ -270,7 +271,7 @@ package keeper
 //@   loop L1 invariant forall j int :: 0 <= j && j < len(list) ==> eligible(list[j], has(Pledge, list[j].Creator), Pledge[list[j].Creator], role0, status0, reputation0, size0)
 //@   loop L1 invariant forall a int, b int :: 0 <= a && a < b && b < len(list) ==> klt(keyof(Node, list[a].Creator), keyof(Node, list[b].Creator))
 //@   loop L1 invariant forall a int :: 0 <= a && a < len(list) && itpos() < itlen() ==> klt(keyof(Node, list[a].Creator), itkey(itpos()))
-//@   loop L1 decreases itlen() - itpos()
+//@   loop L1 decreases [C02.filter.term] itlen() - itpos()
 
 // RandomIndex draws `count` distinct indexes below `total` from the decimal digits of the seed.
 //@ func (Keeper) RandomIndex(seed, total, count) (idx)
@@ -324,3 +325,48 @@ package keeper
 //@   loop L2 invariant -1 <= rangeindex && rangeindex < len(ignore0) && 0 <= i && i < len(snodes)
 //@   loop L2 invariant forall j int :: 0 <= j && j <= rangeindex ==> ignore0[j] != snodes[i].Creator
 //@   loop L2 decreases [C02.super.term] len(ignore0) - rangeindex
+
+// SelectNodes orders the candidates by a heap pass and returns the first `size`. heapify/buildHeap swap slice elements in
+// place through sub-slices that share one backing array, which is outside the verified subset (slices are values there).
+// Contract assumed; validated by a bounded stand-in (/verif/replay/tests/B_SelectNodes_test.go: every input of up to 6 nodes
+// over 3 liveness heights x 2 reputations, every size 0..7): the result is a prefix of a permutation of the input.
+//@ ghost selperm(Slice_node_Node, int, int) int
+//@ func SelectNodes(size, nodes) (res)
+//@   trusted bounded: permutation-prefix property checked exhaustively up to 6 nodes
+//@   requires size >= 0
+//@   modifies nothing
+//@   nopanic [C02.select.nopanic]
+//@   ensures [C15.select.len] len(res) == min(size, len(nodes))
+//@   ensures [C15.select.member] forall j int :: 0 <= j && j < len(res) ==> 0 <= selperm(nodes, size, j) && selperm(nodes, size, j) < len(nodes) && res[j] == nodes[selperm(nodes, size, j)]
+//@   ensures [C15.select.injective] forall a int, b int :: 0 <= a && a < b && b < len(res) ==> selperm(nodes, size, a) != selperm(nodes, size, b)
+
+// RandomSP: the providers chosen for `count` new shards of `size` bytes, never one from the ignore list
+//@ func (Keeper) RandomSP(ctx, count, ignore, size) (sps)
+//@   requires forall k bytes :: rawhas(Node, k) ==> k == keyof(Node, rawget(Node, k).Creator)
+//@   requires forall c string :: has(Pledge, c) ==> i64(Pledge[c].TotalStorage - Pledge[c].UsedStorage) == Pledge[c].TotalStorage - Pledge[c].UsedStorage
+//@   modifies NodeRound
+//@   nopanic [C02.sp.nopanic] when count >= 1
+//@   ensures [C15.sp.count] count >= 1 ==> len(sps) <= count
+//@   ensures [C15.sp.stored] forall j int :: 0 <= j && j < len(sps) ==> has(Node, sps[j].Creator) && Node[sps[j].Creator] == sps[j]
+//@   ensures [C15.sp.elig] forall j int :: 0 <= j && j < len(sps) ==> has(Pledge, sps[j].Creator)
+//@       && Pledge[sps[j].Creator].TotalStorage - Pledge[sps[j].Creator].UsedStorage >= size && (13 & sps[j].Status) == 13 && sps[j].Reputation >= 8000
+//@   ensures [C15.sp.ignore] forall j int :: 0 <= j && j < len(sps) ==> !contains(ignore, sps[j].Creator)
+//@   ensures [C15.sp.distinct] forall a int, b int :: 0 <= a && a < b && b < len(sps) ==> sps[a].Creator != sps[b].Creator
+//@   loop L1 invariant -1 <= rangeindex && rangeindex < len(ignore0)
+//@   loop L1 invariant forall j int :: 0 <= j && j < len(nodes) ==> has(Node, nodes[j].Creator) && Node[nodes[j].Creator] == nodes[j] && nodes[j].Role == 0
+//@   loop L1 invariant forall j int :: 0 <= j && j < len(nodes) ==> has(Pledge, nodes[j].Creator)
+//@       && Pledge[nodes[j].Creator].TotalStorage - Pledge[nodes[j].Creator].UsedStorage >= size0 && (13 & nodes[j].Status) == 13 && nodes[j].Reputation >= 8000
+//@   loop L1 invariant forall a int, b int :: 0 <= a && a < b && b < len(nodes) ==> nodes[a].Creator != nodes[b].Creator
+//@   loop L1 invariant forall m int, j int :: 0 <= m && m <= rangeindex && 0 <= j && j < len(nodes) ==> nodes[j].Creator != ignore0[m]
+//@   loop L1 decreases [C02.sp.term] len(ignore0) - rangeindex
+//@   loop L2 invariant -1 <= rangeindex && rangeindex < len(nodes)
+//@   loop L2 invariant forall j int :: 0 <= j && j <= rangeindex ==> nodes[j].Creator != s
+//@   loop L2 decreases [C02.sp.term] len(nodes) - rangeindex
+//@   loop L3 invariant -1 <= rangeindex && rangeindex < len(res_RandomIndex) && len(sps) == rangeindex + 1
+//@   loop L3 invariant forall m int :: 0 <= m && m <= rangeindex ==> sps[m] == nodes[res_RandomIndex[m]]
+//@   loop L3 invariant forall m int :: 0 <= m && m <= rangeindex ==> has(Node, sps[m].Creator) && Node[sps[m].Creator] == sps[m] && sps[m].Role == 0
+//@   loop L3 invariant forall m int :: 0 <= m && m <= rangeindex ==> has(Pledge, sps[m].Creator)
+//@       && Pledge[sps[m].Creator].TotalStorage - Pledge[sps[m].Creator].UsedStorage >= size0 && (13 & sps[m].Status) == 13 && sps[m].Reputation >= 8000
+//@   loop L3 invariant forall m int :: 0 <= m && m <= rangeindex ==> !contains(ignore0, sps[m].Creator)
+//@   loop L3 invariant forall a int, b int :: 0 <= a && a < b && b <= rangeindex ==> sps[a].Creator != sps[b].Creator
+//@   loop L3 decreases [C02.sp.term] len(res_RandomIndex) - rangeindex
